@@ -142,23 +142,39 @@ def trim_stream(evs, keep_ws):
     return out
 
 
-def excuses(norm, src):
-    """Known-finding tags that apply to a source document as a whole (see known_findings.json)."""
-    out = set()
+ANY = '*'
+
+
+def excuses_scoped(norm, src):
+    """Known-finding tags that apply to a source document (see known_findings.json), each with the
+    set of element names (local) it can explain a difference in; ANY = anywhere in the document."""
+    out = {}
+
+    def add(tag, scope):
+        out.setdefault(tag, set()).add(scope)
     names = {bytes.fromhex(r[0]) for r in norm.tags}
     has_ns = norm.lang['ns'] is not None
     typed_langs = norm.wv or norm.syncml or norm.lang['id'] in (1801, 2401, 2402)
     stack = []
+    unknown_at = None      # depth of the outermost unknown (literal) element we are inside
+    embedded_at = None     # depth of an embedded DevInf / DM tree document (elements of another language)
     for e in src:
         if e[0] == 'S':
             if stack and stack[-1] in norm.binary:
-                out.add('[mixed-content-in-binary-element]')
+                add('[mixed-content-in-binary-element]', stack[-1])
             stack.append(local(e[1]))
-            if has_ns and local(e[1]) not in names:
-                out.add('[unknown-element-in-namespaced-language]')
+            if norm.syncml and embedded_at is None and stack[-1] in (b'DevInf', b'MgmtTree'):
+                embedded_at = len(stack)
+            if has_ns and embedded_at is None:
+                # a known element below a literal element loses its xmlns declaration (code page)
+                if unknown_at is not None:
+                    add('[unknown-element-in-namespaced-language]', stack[-1])
+                elif stack[-1] not in names:
+                    unknown_at = len(stack)
+                    add('[unknown-element-in-namespaced-language]', stack[-1])
             for an, av in e[2]:
                 if local(an) in norm.dt_attrs and parse_dt(av) is None:
-                    out.add('[invalid-datetime-attribute]')
+                    add('[invalid-datetime-attribute]', stack[-1])
             if norm.lang['id'] == 1901 and any(local(an) == b'NAME' and av == b'ICON' for an, av in e[2]):
                 for an, av in e[2]:
                     if local(an) == b'VALUE':
@@ -166,16 +182,41 @@ def excuses(norm, src):
                             if not b64_lenient(av):
                                 raise ValueError
                         except Exception:
-                            out.add('[invalid-base64-in-binary-element]')
+                            add('[invalid-base64-in-binary-element]', stack[-1])
         elif e[0] == 'E':
+            if unknown_at is not None and len(stack) == unknown_at:
+                unknown_at = None
+            if embedded_at is not None and len(stack) == embedded_at:
+                embedded_at = None
             if stack:
                 stack.pop()
         else:
+            if norm.syncml and stack and stack[-1] == b'Type' and e[1] != e[1].strip(WS) and \
+                    e[1].strip(WS).lower() in (b'application/vnd.syncml-devinf+xml', b'application/vnd.syncml.dmtnds+xml'):
+                # with white space preserved the MIME label of an embedded document is not recognised
+                for sc in (b'Type', b'Data', b'Item', b'Meta'):
+                    add('[syncml-embedded-type-untrimmed]', sc)
             if len(e) > 2 and e[2]:
-                out.add('[cdata-in-typed-element]' if typed_langs else '[cdata-adjacent-to-text]')
-    if invalid_base64_in_binary(norm, src):
-        out.add('[invalid-base64-in-binary-element]')
+                add('[cdata-in-typed-element]' if typed_langs else '[cdata-adjacent-to-text]', stack[-1] if stack else ANY)
+            if stack and (stack[-1] in norm.binary or (norm.lang['id'] == 1801 and stack[-1] == b'ds:KeyValue')):
+                try:
+                    b64_lenient(e[1])
+                except Exception:
+                    add('[invalid-base64-in-binary-element]', stack[-1])
     return out
+
+
+def excuses(norm, src):
+    """The tags of excuses_scoped, without their scopes (whole-document granularity)."""
+    return set(excuses_scoped(norm, src))
+
+
+def applicable(scoped, scope):
+    """Tags of `scoped` that can explain a difference located in element `scope` (None = a
+    difference that has no location: every tag applies)."""
+    if scope is None:
+        return set(scoped)
+    return {t for t, sc in scoped.items() if ANY in sc or scope in sc}
 
 
 def invalid_base64_in_binary(norm, src):
@@ -204,24 +245,30 @@ def same_up_to_empty_element_form(a, b):
 
 def compare(norm, src, dst, keep_ws):
     """None when equal under the normalisations, else a description of the first difference."""
+    r = compare_at(norm, src, dst, keep_ws)
+    return r[0] if r else None
+
+
+def compare_at(norm, src, dst, keep_ws):
+    """None when equal, else (description of the first difference, local name of the element it lies in)."""
     a, b = trim_stream(src, keep_ws), trim_stream(dst, keep_ws)
     stack = []
     i = j = 0
     while i < len(a) and j < len(b):
         x, y = a[i], b[j]
         if x[0] != y[0]:
-            return f'item {i}: {x[:2]} vs {y[:2]}'
+            return f'item {i}: {x[:2]} vs {y[:2]}', (local(stack[-1]) if stack else None)
         if x[0] == 'S':
             if not norm.same_name(x[1], y[1]):
-                return f'element name {x[1]} vs {y[1]}'
+                return f'element name {x[1]} vs {y[1]}', local(x[1])
             ax = [(n, v) for n, v in x[2]]
             ay = [(n, v) for n, v in y[2]]
             if len(ax) != len(ay):
-                return f'attributes of <{local(x[1]).decode("latin-1")}>: {ax} vs {ay}' + ('' if norm.has_attrs else ' [language without attribute table]')
+                return f'attributes of <{local(x[1]).decode("latin-1")}>: {ax} vs {ay}' + ('' if norm.has_attrs else ' [language without attribute table]'), local(x[1])
             for (n1, v1), (n2, v2) in zip(ax, ay):
                 if local(n1) != local(n2) or not norm.attr_equiv(n1, v1, v2):
                     tag = ' [invalid-datetime-attribute]' if (local(n1) in norm.dt_attrs and parse_dt(v1) is None) else ''
-                    return f'attribute {n1}={v1} vs {n2}={v2}' + tag
+                    return f'attribute {n1}={v1} vs {n2}={v2}' + tag, local(x[1])
             stack.append(x[1])
         elif x[0] == 'E':
             if stack:
@@ -241,8 +288,8 @@ def compare(norm, src, dst, keep_ws):
                     tag = ' [cdata-in-typed-element]'
                 if norm.wv and re.fullmatch(rb'\d{8}T\d{4}(\d\d)?', x[1].strip(WS)) and y[1].strip(WS) == x[1].strip(WS) + b'Z':
                     tag = ' [wv-datetime-without-zone]'
-                return f'text in <{local(stack[-1]).decode("latin-1") if stack else ""}>: {x[1][:60]} vs {y[1][:60]}' + tag
+                return f'text in <{local(stack[-1]).decode("latin-1") if stack else ""}>: {x[1][:60]} vs {y[1][:60]}' + tag, (local(stack[-1]) if stack else None)
         i += 1; j += 1
     if i < len(a) or j < len(b):
-        return f'length: {len(a)} vs {len(b)} items; next {a[i:i+1]} / {b[j:j+1]}'
+        return f'length: {len(a)} vs {len(b)} items; next {a[i:i+1]} / {b[j:j+1]}', (local(stack[-1]) if stack else None)
     return None
